@@ -481,8 +481,9 @@ int main(int argc, char ** argv)
       if (!args.WantPart(ProfileName(prof))) continue;
       memset((void *)g_sh, 0, sizeof(Shared)); g_sh->exLen = 1 << 30;
       int depth = depths[prof][args.Thorough() ? 1 : 0];
-      if (args.kv.count("depth")) depth = atoi(args.kv["depth"].c_str());
-      if (args.kv.count(std::string("depth-") + ProfileName(prof))) depth = atoi(args.kv[std::string("depth-") + ProfileName(prof)].c_str());
+      bool overridden = false;
+      if (args.kv.count("depth")) { depth = atoi(args.kv["depth"].c_str()); overridden = true; }
+      if (args.kv.count(std::string("depth-") + ProfileName(prof))) { depth = atoi(args.kv[std::string("depth-") + ProfileName(prof)].c_str()); overridden = true; }
       const PulseModel all(prof, args.Thorough());
       // Thorough tier: one exploration per start state (run "<part>@<start>"), so that the explorer's per-level tables stay small (a single
       // run over all start states of the full alphabet at depth 4 needs 16 GB); the runs are merged into one part below.
@@ -490,14 +491,19 @@ int main(int argc, char ** argv)
       const int runs = split ? all.NumStarts() : 1;
       const double t0 = verif::NowS();
       verif::Part M; M.name = ProfileName(prof); M.bound_completed = depth; M.exhaustive = true;
-      std::vector<unsigned long long> perDepth; unsigned long long disabled = 0, replayChecks = 0, violating = 0;
+      std::vector<unsigned long long> perDepth; unsigned long long disabled = 0, replayChecks = 0, violating = 0; std::string lowerRuns;
       for (int r = 0; r < runs; r++) {
          const PulseModel model(prof, args.Thorough(), split ? r : -1);
+         // thorough full alphabet: depth 4 from the empty start state, the two-level tree and the pending-pulse state, depth 3 (= quick) from
+         // the star, the chain and the offline-built subtree (depth 4 from all six: 2.1e8 transitions, 15 min, run once clean; `--depth-full-alphabet 4`)
+         const int runDepth = (split && !overridden && prof == P_FULL && (r == 1 || r == 2 || r == 4)) ? depth - 1 : depth;
          const std::string runName = split ? verif::Fmt("%s@%d", ProfileName(prof), r) : std::string(ProfileName(prof));
          seqx::Explorer<PulseModel> ex(model, args, res, runName);
          ex.SetDeadline(args.t0 + args.deadline * 0.9 * (from + share[prof] * (double)(r + 1) / (double)runs));
-         const seqx::Stats S = ex.Run(depth);
-         const verif::Part P = res.parts.back(); res.parts.pop_back();
+         const seqx::Stats S = ex.Run(runDepth);
+         verif::Part P = res.parts.back(); res.parts.pop_back();
+         if (P.exhaustive && P.bound_completed < runDepth) P.bound_completed = runDepth;   // frontier ran empty before the bound
+         if (runDepth < depth) { lowerRuns += (lowerRuns.empty() ? "" : ",") + verif::Fmt("%d", r); if (P.exhaustive) P.bound_completed = depth; }   // reported separately in the rule
          M.states += P.states; M.transitions += P.transitions; M.evaluations += P.evaluations; if (P.distinct_outcomes > M.distinct_outcomes) M.distinct_outcomes = P.distinct_outcomes;
          if (P.bound_completed < M.bound_completed) M.bound_completed = P.bound_completed;
          if (!P.exhaustive) { M.exhaustive = false; M.cap += (M.cap.empty() ? "" : "; ") + (split ? runName + ": " : std::string()) + P.cap; }
@@ -516,6 +522,7 @@ int main(int argc, char ** argv)
       P.rule = verif::Fmt("every sequence of <=%d operations from a %d-operation alphabet applied to a real tree of 5 PulseNodes (root + 4 attachable, depth <=3) driven through a PulseNodeManager subclass with a simulated clock, from each of %d start states (", depth, model.NumOps(), model.NumStarts());
       for (int s = 0; s < model.NumStarts(); s++) P.rule += (s ? "; " : "") + model.StartName(s);
       P.rule += std::string("). Alphabet: ") + what + ". States deduplicated on (tree shape, per node requested/returned/aggregate time relative to now, valid flag, child-list membership and position, armed actions, cycle phase, disturbed marks), minimised over the 24 relabellings of the interchangeable nodes 1..4; a state is non-trivial when its canonical form is new";
+      if (!lowerRuns.empty()) P.rule += verif::Fmt("; BOUND PER START STATE: <=%d operations from start states other than {%s}, <=%d operations from start states {%s} (0-based, in the order listed)", depth, lowerRuns.c_str(), depth - 1, lowerRuns.c_str());
       if (split) P.rule += "; explored separately from each start state, `states` is the sum over the start states (a state reachable from two start states counts twice), `distinct_outcomes` the maximum";
       std::string spd = "["; for (size_t i = 0; i < perDepth.size(); i++) { if (i) spd += ","; spd += verif::Fmt("%llu", perDepth[i]); } spd += "]";
       P.extra["new_states_per_depth"] = spd;
